@@ -69,6 +69,12 @@ CLAIMED = {
         "CPython's scheduler/GIL and RLock implementation are outside the model; the syntactic abstraction of the translator over-approximates reads",
         "DESIGN.md §6 C18",
     ),
+    "C19": (
+        "Lean 4 theorems about the model of the directory scan (mirror, sortedness, listing-order invariance, inverse mappers, key-map hazard over the regenerated table) + real temporary directory trees",
+        "scan/visit mirror load_tree_from_fs on a rose tree of directory entries in listing order; theorems: one node per entry at the same depth with its payload, files before directories and name order when sorting, independence of the listing order, listing order kept otherwise, FS mappers inverse, the empty FileSystemTree key map (regenerated) avoids the `s` clash. Tie: real directory trees (nesting, empty folders, unicode and sort-sensitive names, sizes, mtimes) scanned by the real code and the model; save/load round trip with the FS mappers.",
+        "os/pathlib semantics, symlinks, special files, permissions and concurrent modification are outside the model",
+        "DESIGN.md §6 C19",
+    ),
     "C09": (
         "Lean 4 theorems (search loop with counter/break = filter+take; index access decision table) + differential correspondence",
         "Theorems in lean/Nutree/Properties/C09.lean: the `_search` loop equals the matching nodes of the pre-order cut to the first k; find_first = head; index lookups with a limit are a prefix of the clone list; tree[key] resolves node_id, then data_id, then data with KeyError/Ambiguous/ValueError as specified. Tie: all small forests with clones x start nodes x patterns x limits x key kinds.",
